@@ -223,9 +223,9 @@ CLAIMED["C01"] = dict(
          "stop/skip effects the line verdict is the AND (OR in OR mode) of the component votes evaluated left to right, each in the "
          "state left by its predecessors (c01_toplevel). Tie: suite `interp` runs generated programs through the real code and the "
          "Lean interpreter+run loop (lines, variables, flags, counters, printouts) and judges the real run against the documented "
-         "meaning (spec_eval) — model-vs-code breaks and spec violations are reported separately.",
+         "meaning (spec_eval) — model-vs-code breaks and spec violations are reported separately. Source tie (T): `CsvPath._consider_line` is translated from /repo's working tree to Lean on every run (heap mode) and proved to compute the run-loop model's `considerLine` for every contract-keeping matcher (Props/RunTie.consider_line_source_is_model).",
     note=INTERP_NOTE,
-    technique="Lean 4 proof (run-loop invariant; induction over the component list) + interpreter-model correspondence + reference-semantics oracle",
+    technique="Lean 4 proof (run-loop invariant; induction over the component list) + source translator with bridging theorem (_consider_line) + interpreter-model correspondence + reference-semantics oracle",
     design="6/C01",
 )
 CLAIMED["C03"] = dict(
@@ -234,10 +234,10 @@ CLAIMED["C03"] = dict(
          "carries the 1-based scan number, the match count so far and the 0-based line number, and each component is evaluated in the "
          "state produced by the effects of the earlier components of the same line (c03_sameline). Tie: suite `interp` with "
          "variable-writing programs (assignments with tracking values, push/pop/stack, counter, count family, per-line stacks of "
-         "count_lines/line_number/count_scans/count) compared with the Lean interpreter and with the reference semantics after the run.",
+         "count_lines/line_number/count_scans/count) compared with the Lean interpreter and with the reference semantics after the run. Source tie (T): `CsvPath._consider_line` is translated from /repo's working tree to Lean on every run (heap mode) and proved to compute the run-loop model's `considerLine` for every contract-keeping matcher (Props/RunTie.consider_line_source_is_model).",
     note=INTERP_NOTE + " tally/sum/subtotal/every/first bookkeeping is compared model-vs-code where the model has the function and otherwise "
          "only judged by the oracle when spec_eval defines it.",
-    technique="Lean 4 proof (run-loop counting invariants, component sequencing) + interpreter-model correspondence + reference-semantics oracle",
+    technique="Lean 4 proof (run-loop counting invariants, component sequencing) + source translator with bridging theorem (_consider_line) + interpreter-model correspondence + reference-semantics oracle",
     design="6/C03",
 )
 CLAIMED["C04"] = dict(
@@ -259,9 +259,10 @@ CLAIMED["C13"] = dict(
          "(c13_stop_ends_run); inside a line no component after a fired stop()/skip() is evaluated, a skipped line is not matched "
          "and skip is cleared for the next line (c13_stop_cut, c13_skip_cut). Tie: suite `interp` with conditional "
          "stop/skip/advance/last among side-effecting components over files with interior/trailing blanks and scan windows, compared "
-         "with the Lean model and judged by the reference semantics (absence of later effects).",
+         "with the Lean model and judged by the reference semantics (absence of later effects); suite `lookahead` judges stop/skip beside "
+         "an onmatch look-ahead directly. Source tie (T): `CsvPath._consider_line` (with `raise_match_count_if`, `stop`, `LineMonitor.is_last_line_and_blank`) is translated from /repo's working tree to Lean on every run (heap mode, Generated/CoreConsiderLine.lean) and proved to compute the run-loop model's `considerLine` for every matcher that keeps the stated contract (Props/RunTie.consider_line_source_is_model).",
     note=INTERP_NOTE,
-    technique="Lean 4 proof (case analysis of the run-loop step and the component loop) + correspondence + oracle",
+    technique="Lean 4 proof (case analysis of the run-loop step and the component loop) + source translator with bridging theorem (_consider_line) + correspondence + oracle",
     design="6/C13",
 )
 
